@@ -17,11 +17,15 @@ import (
 func sizedCase(k *engine.Case) {
 	r := k.R
 	var n int
-	switch r.Intn(4) {
+	switch r.Intn(5) {
 	case 0:
 		n = r.Intn(1 << 16)
 	case 1:
 		n = r.Intn(130)
+	case 4:
+		// room for whole files
+		n = []int{65535, 65536, 65537, 70000, 1 << 17, 1<<17 + 1, 1 << 20, 1<<20 + 1, 65536 + r.Intn(1<<20)}[r.Intn(9)]
+		k.Count("sized_beyond_64k", 1)
 	default:
 		n = sizeTable[r.Intn(len(sizeTable))]
 	}
